@@ -213,7 +213,20 @@ class NativeCheck:
             pool["result"] = res
             pool["old"] = old
             try:
-                ok = self.call_clause(c.ensures, pool)
+                if c.ghost_out:
+                    # ghost outputs are existentially quantified: search small witnesses
+                    names = list(c.ghost_out)
+                    ok = False
+                    for combo in itertools.product(range(-1, 9), repeat=len(names)):
+                        pool.update(dict(zip(names, combo)))
+                        try:
+                            if self.call_clause(c.ensures, pool):
+                                ok = True
+                                break
+                        except (IndexError, KeyError):
+                            continue
+                else:
+                    ok = self.call_clause(c.ensures, pool)
             except Exception as e:
                 return "error", f"ensures raised {e!r}"
             if not ok:
